@@ -1,10 +1,8 @@
 """C28 - inlining preserves program behaviour."""
 import json
 
-from ..core import Ctx, exc_bucket
 from ..fprog import gen_inline as GI
 from ..fprog import harness
-from ..fprog.native import make_driver
 
 ID = 'C28'
 LEVEL = 'exploration'
@@ -37,6 +35,12 @@ EXCLUDE_RULES = [
 
 TRAFO_KEYS = ('inline_constants', 'inline_elementals', 'inline_stmt_funcs', 'inline_internals', 'inline_marked',
               'remove_dead_code', 'adjust_imports', 'external_only')
+# options that matter per entry point, and the baseline value the reducer tries to restore (a signature only
+# names options that are necessarily away from the baseline)
+OPT_BASELINE = {'adjust_imports': True, 'external_only': True, 'member_alias': False, 'inline_constants': False,
+                'inline_elementals': False, 'inline_stmt_funcs': False, 'inline_internals': False, 'inline_marked': False,
+                'remove_dead_code': False}
+EP_OPTS = {'marked': ('adjust_imports',), 'constants': ('external_only',), 'internal': ('member_alias',), 'trafo': TRAFO_KEYS}
 KIND_TO_APP = {'msub': 'marked', 'isub': 'internal', 'ifun': 'internal', 'fun': 'functions', 'sf': 'stmtfunc', 'const': 'constants'}
 
 
@@ -45,9 +49,10 @@ def quiet():
     q()
 
 
-def apply_ep(spec, text, meta):
-    """parse, apply the entry point of the spec as loki's tests do, regenerate; returns (new text, ir_changed)"""
+def apply_ep(spec, rendered, meta):
+    """parse, apply the entry point of the spec as loki's tests do, regenerate; returns (files, ir_changed)"""
     quiet()
+    text = rendered[0]['text']
     from loki import Sourcefile
     from loki.frontend import FP
     from loki.transformations import inline as li
@@ -87,7 +92,7 @@ def apply_ep(spec, text, meta):
     else:
         raise ValueError(ep)
     after = json.dumps(irdump.dump_sourcefile(sf), sort_keys=True, default=str)
-    return sf.to_fortran() + '\n', before != after
+    return [(rendered[0]['name'], sf.to_fortran() + '\n')], before != after
 
 
 def site_affected(spec, site):
@@ -102,100 +107,17 @@ def site_affected(spec, site):
     return bool(app.get(KIND_TO_APP.get(k, ''), False))
 
 
-def evaluate(spec):
-    """returns dict(status in ok|ub|reject|fail, coarse, detail, nontrivial, classes, case, exc)"""
-    case = GI.build(spec)
-    rendered = harness.render_case(case)
-    driver = make_driver(case)
-    orig = harness.run_original(case, rendered, driver)
-    out = {'case': case, 'rendered': rendered, 'classes': ['ep:' + spec['ep']] + ['f:' + f for f in case['meta']['features']]}
-    if not orig.ok:
-        out.update(status='ub', coarse=None, detail=orig.brief(), nontrivial=False)
-        return out
-    try:
-        text, changed = apply_ep(spec, rendered[0]['text'], case['meta'])
-    except Exception as e:  # noqa: loki raised on a generated input -> rejected bucket
-        out.update(status='reject', coarse='loki-raises:' + exc_bucket(e), detail=repr(e)[:400], nontrivial=False, exc=e)
-        return out
-    vecs = orig.out.split('vector ')
-    varied = len(set(v.split('\n', 1)[1] if '\n' in v else v for v in vecs[1:])) > 1
-    executes = any(site_affected(spec, s) and s.get('where') in ('top', 'loop') for s in case['meta']['sites'])
-    out['nontrivial'] = bool(changed and executes and varied)
-    out['classes'] += ['ir-changed' if changed else 'ir-unchanged'] + (['changed-site-executes'] if executes else []) + \
-        ['site:%s/%s/%s' % (s.get('kind'), s.get('form'), s.get('where')) for s in case['meta']['sites'] if s.get('form')]
-    sub = Ctx(ID, 'quick', 0)
-    res = harness.differential(sub, case, [(rendered[0]['name'], text)], 'X', original=orig, driver=driver)
-    if res == 'ok':
-        out.update(status='ok', coarse=None, detail='')
-        return out
-    sig, ent = sorted(sub.failures.items())[0]
-    out.update(status='fail', coarse=sig[2:], detail=ent['detail'], candidate=text)
-    return out
+def executes(spec, case):
+    return any(site_affected(spec, s) and s.get('where') in ('top', 'loop') for s in case['meta']['sites'])
 
 
-def reduce_failure(spec, coarse):
-    def still(variant):
-        try:
-            r = evaluate(variant)
-        except harness.GeneratorBug:
-            raise
-        return r['status'] == 'fail' and r['coarse'] == coarse
-    cur, _ = GI.reduce_spec(spec, still, flag_order=GI.FLAGS, size_min=GI.SIZE_MIN, max_evals=60)
-    if cur['ep'] == 'trafo':
-        for k in TRAFO_KEYS:
-            if cur['opts'].get(k):
-                cand = dict(cur, opts=dict(cur['opts'], **{k: False}))
-                if still(cand):
-                    cur = cand
-    return cur
-
-
-def signature(spec, coarse):
-    parts = [f for f in GI.FLAGS if spec['flags'].get(f)]
-    ep = spec['ep']
-    if ep == 'trafo':
-        ep += '(' + ','.join(k for k in TRAFO_KEYS if spec['opts'].get(k)) + ')'
-    elif ep == 'constants':
-        ep += '(external_only=%s)' % bool(spec['opts'].get('external_only'))
-    elif ep == 'marked':
-        ep += '(adjust_imports=%s)' % bool(spec['opts'].get('adjust_imports'))
-    return f'C28:{ep}:{coarse}:{"+".join(parts) or "core"}'
-
-
-def check_spec(spec, ctx, reduce=True):
-    r = evaluate(spec)
-    case = {'spec': spec}
-    ctx.case(case, r['nontrivial'], r['classes'] + ([] if r['status'] == 'ok' else ['status:' + r['status']]))
-    if r['status'] == 'ub':
-        ctx.exclude('original-traps-at-runtime(UB)')
-        return
-    if r['status'] == 'reject':
-        ctx.reject(r['exc'], case)
-        return
-    if len(ctx.samples) < 2:
-        ctx.sample({'ep': spec['ep'], 'features': r['case']['meta']['features'],
-                    'source': r['rendered'][0]['text'][:3500]})
-    if r['status'] != 'fail':
-        return
-    small = reduce_failure(spec, r['coarse']) if reduce else spec
-    rs = evaluate(small) if small is not spec else r
-    detail = rs.get('detail', '')
-    ctx.fail(signature(small, r['coarse']), {'spec': small}, detail)
-
-
-def check_case(seedspec, ctx):
-    spec, reasons = GI.apply_exclusions(seedspec, EXCLUDE_RULES)
-    for why in reasons:
-        ctx.exclude(why)
-    if ctx.out_of_time():
-        return
-    check_spec(spec, ctx)
+X = GI.XCheck(ID, GI, apply_ep, executes, EP_OPTS, OPT_BASELINE, EXCLUDE_RULES)
+evaluate, reduce_failure, signature = X.evaluate, X.reduce_failure, X.signature   # (used by the probe tools)
 
 
 def run_shard(ctx):
-    ctx.given(GI.specs(), check_case, ctx.scale(96, 3200), shrink=False)
+    ctx.given(GI.specs(), X.check_case, ctx.scale(96, 3200), shrink=False)
 
 
 def replay(case, ctx):
-    check_spec(case['spec'], ctx)
-    return [(s, e['detail']) for s, e in ctx.failures.items()]
+    return X.replay(case, ctx)
